@@ -42,11 +42,11 @@ THEOREMS_B = ["AurelVerif.C11." + t for t in (
     "accepted_structure", "structure_accepted", "gapfree_is_hierarchical", "accepted_dichotomy", "classX_gap",
     "classX_shifted_strip", "unsupported_layout_raises_full_is_false",
     "pick_latest", "pick_none", "pick_max", "pick_agrees_with_pickRestart", "rows_aligned", "rows_aligned_explicit",
-    "rows_misaligned_when_columns_differ")]
+    "active_restarts", "rows_aligned_when_columns_differ", "checkpoint_only_restart_shadows_3d")]
 MODULE_C = "AurelVerif.Props.C11c"
 THEOREMS_C = ["AurelVerif.C11." + t for t in (
     "checkpoint_file_selection", "checkpoint_it_exact", "checkpoint_table_exact", "checkpoint_pipeline_exact",
-    "checkpoint_table_exact_needs_nodup", "ckGoodIt")]
+    "checkpoint_duplicate_names_read_once", "checkpoint_prefix_body_duplicates", "ckGoodIt")]
 LEAN_FILES = ["AurelVerif/Props/C11.lean", "AurelVerif/Lemmas/Chunks.lean", "AurelVerif/Model/Chunks.lean",
               "AurelVerif/Gen/VarMaps.lean", "Driver/C11.lean",
               "AurelVerif/Props/C11b.lean", "AurelVerif/Props/C11c.lean", "AurelVerif/Model/Restarts.lean",
@@ -348,22 +348,44 @@ def do_read(param, call, split_per_it=False):
         return aurel.read_data(param, **kw)
 
 
+# Einstein Toolkit name -> aurel scalar name, from the generator's own table
+ET_TO_AUREL = {v[1]: k for k, v in etgen.VARS.items()}
+
+
+def request_components(name):
+    """scalar components (aurel names) of a requested name: tensor, aurel scalar or ET name"""
+    return etgen.components(ET_TO_AUREL.get(name, name))
+
+
 def check_against_truth(sim, call, data):
     """None or a description of the first difference with the ground truth"""
     rows = expected_rows(sim, call)
     chk = bool(call.get("usecheckpoints", False))
+    if not rows and data == {}:
+        return None                                   # nothing to read: the empty dictionary
     if "it" not in data or [int(i) for i in data["it"]] != [it for it, _ in rows]:
         return "iterations returned %s, expected %s" % ([int(i) for i in data.get("it", [])], [it for it, _ in rows])
     if [float(t) for t in data["t"]] != [sim.time(it, r, chk) for it, r in rows]:
         return "times returned %s, expected %s" % ([float(t) for t in data["t"]],
                                                    [sim.time(it, r, chk) for it, r in rows])
     for n in call["vars"]:
-        for c in etgen.components(n):
+        for c in request_components(n):
+            if not any(sim.has_var(c, r) for _, r in rows):
+                # no restart that is read wrote it: no column (or nothing but None)
+                if c in data and any(x is not None for x in data[c]):
+                    return "variable %s was not written by any restart read, yet data came back" % c
+                continue
             if c not in data:
                 return "variable %s (requested as %s) missing from the result (keys %s)" % (c, n, sorted(data))
             if len(data[c]) != len(rows):
                 return "variable %s has %d entries for %d iterations" % (c, len(data[c]), len(rows))
             for i, (it, r) in enumerate(rows):
+                if not sim.has_var(c, r):
+                    if data[c][i] is not None:
+                        return "%s it=%d: restart %d did not write it, expected None" % (c, it, r)
+                    continue
+                if data[c][i] is None:
+                    return "%s it=%d restart=%d: None returned, the data is stored" % (c, it, r)
                 exp = sim.truth(c, it, call["rl"], r, chk)
                 got = np.asarray(data[c][i])
                 if got.shape != exp.shape:
@@ -641,11 +663,11 @@ def sel2_case(sim, call, data):
                                  ",".join(map(str, call["it"])))
     if data is None:
         return line, "err"
-    c0 = etgen.components(call["vars"][0])[0]
-    shift = etgen.CHK if call.get("usecheckpoints") else 0
-    return line, ("ok " + " ".join(
-        "%d:%d" % (int(it), etgen.decode(np.asarray(data[c0][i]).flat[0]).get("restart", -1) - shift)
-        for i, it in enumerate(data["it"]))).strip()
+    if "it" not in data:
+        return line, "ok"
+    # the restart of a row is read off the time column (it/4 + 1000*restart [+ 500 for checkpoints])
+    return line, ("ok " + " ".join("%d:%d" % (int(it), int(float(data["t"][i]) // 1000))
+                                   for i, it in enumerate(data["it"]))).strip()
 
 
 def checkpoint_calls(rng, sim, ncalls, skip_last):
@@ -669,17 +691,19 @@ def checkpoint_calls(rng, sim, ncalls, skip_last):
         if rng.random() < 0.5:
             names = [c for n in names for c in (etgen.components(n) if rng.random() < 0.5 else [n])]
             names = rng.sample(names, rng.randint(1, len(names)))
-        comps = [c for n in names for c in etgen.components(n)]
-        if len(set(comps)) != len(comps):
-            # a component requested twice gets two entries per iteration in the checkpoint path
-            # (reported; Props/C11c checkpoint_table_exact_needs_nodup): keep the first occurrence only
-            seen, keep = set(), []
-            for n in names:
-                cs = etgen.components(n)
-                if not any(c in seen for c in cs):
-                    keep.append(n)
-                    seen.update(cs)
-            names = keep
+        # duplicates (read once since /repo a25772a): the same name twice, a component next to its
+        # tensor, the Einstein Toolkit name next to the aurel name
+        r = rng.random()
+        if r < 0.2:
+            names = names + [rng.choice(names)]
+        elif r < 0.4:
+            tens = [n for n in names if n in etgen.TENSORS]
+            if tens:
+                names.insert(rng.randrange(len(names) + 1), rng.choice(etgen.components(rng.choice(tens))))
+        elif r < 0.6:
+            sc = [n for n in names if n in etgen.VARS]
+            if sc:
+                names.insert(rng.randrange(len(names) + 1), etgen.VARS[rng.choice(sc)][1])
         call = {"it": its, "vars": names, "rl": rng.randrange(len(d["levels"])), "restart": -1,
                 "skip_last": skip_last, "usecheckpoints": True}
         if rng.random() < 0.25:
@@ -742,11 +766,67 @@ def checkpoint_pipeline(ctx, root, ndirs):
     return found, cases
 
 
+def missing_variable_pipeline(ctx, root, ndirs):
+    """directories in which one restart did not output one of the requested variables (plain 3D path):
+    None expected for that restart's rows (/repo e8cb585), judged by the generator's ground truth"""
+    rng = ctx.rng
+    found = 0
+    cases = []
+    stats = {"reads": 0, "reads_with_None": 0, "raised_restart_without_any_requested_variable": 0}
+    for k in range(ndirs):
+        per_proc, grouped = bool(k & 1), bool(k & 2)
+        desc = etgen.random_desc(rng, "c11mv%d" % k, per_proc=per_proc, grouped=grouped, nlevels=1,
+                                 nrest=rng.randint(2, 3), nmax=ctx.budget(5, 8), kmax=(2, 2, 2),
+                                 nvars=rng.randint(2, 3))
+        etgen.add_random_skips(rng, desc)
+        skip_last = False
+        sim = etgen.Sim(root, desc)
+        calls = random_calls(rng, sim, ctx.budget(3, 5), skip_last)
+        if k == 0:
+            ctx.sample({"restart_without_a_variable": [(r["number"], r.get("skip_vars")) for r in desc["restarts"]],
+                        "calls": calls[:1]})
+        sim.write()
+        try:
+            param = sim.param()
+            for call in calls:
+                rows = expected_rows(sim, call)
+                comps = [c for n in call["vars"] for c in request_components(n)]
+                starved = any(not any(sim.has_var(c, r) for c in comps) for _, r in rows)
+                data, diff = None, None
+                try:
+                    data = do_read(param, call)
+                    diff = check_against_truth(sim, call, data)
+                except Exception as ex:  # noqa
+                    if starved:
+                        # a restart that is read wrote none of the requested variables: no time is
+                        # collected for it and the call raises (reported; outside the theorem's reader)
+                        stats["raised_restart_without_any_requested_variable"] += 1
+                    else:
+                        diff = "raised %s: %s" % (type(ex).__name__, str(ex)[:200])
+                stats["reads"] += 1
+                if data is not None and any(x is None for c in comps for x in data.get(c, [])):
+                    stats["reads_with_None"] += 1
+                if diff:
+                    found += report(ctx, "read_data(%s) on a generated directory in which restart(s) %s lack %s: %s" % (
+                        {kk: call[kk] for kk in ("it", "vars", "rl", "restart")},
+                        [r["number"] for r in desc["restarts"] if r.get("skip_vars")],
+                        [r["skip_vars"] for r in desc["restarts"] if r.get("skip_vars")], diff),
+                        {"kind": "input", "op": "pipeline", "desc": sim.describe(), "call": call},
+                        fingerprint(sim, call, diff))
+                elif data is not None:
+                    cases.append(sel2_case(sim, call, data) + ("sel2",))
+        finally:
+            sim.remove()
+    ctx.cov["missing_variable_pipeline"] = dict(stats, directories=ndirs)
+    return found, cases
+
+
 # --------------------------------------------------------------------------
 # witnesses of the Lean theorems, replayed on the real code
 # --------------------------------------------------------------------------
 def witness_cases(ctx, tmp):
-    """(cases, obligations): every witness is also a correspondence case (model output = real output)"""
+    """witnesses of the Lean theorems on the real code: every one is also a correspondence case
+    (model output = real output); the two unrepaired ones are reported as known findings"""
     cases = []
     notes = {}
     # class X (Props/C11b classX_gap, classX_shifted_strip): accepted, blocks packed side by side
@@ -760,24 +840,44 @@ def witness_cases(ctx, tmp):
         ctx.obligation("witness %s replays on the real join_chunks (accepted, packed side by side)" % name,
                        real == stated, "real %s | stated in the theorem %s" % (real, stated), kind="correspondence")
         cases.append((raw_line(raw), real, "witness"))
-    # the same at the level of read_data: a refinement level made of two separate boxes (recorded, not judged)
+        if real == stated:
+            ctx.violation("join_chunks accepts the class-X dictionary %s (origins with a gap / a shifted strip) and "
+                          "returns the blocks packed side by side: %s" % (name, real),
+                          {"kind": "input", "op": "classx", "case": raw, "stated": stated},
+                          {"kind": "classX_accepted_silently"})
+    # the same at the level of read_data: a refinement level made of two separate boxes
     notes["two_box_level_through_read_data"] = two_box_level(tmp)
-    # a variable requested twice through the checkpoint path (Props/C11c checkpoint_table_exact_needs_nodup)
+    if notes["two_box_level_through_read_data"].startswith("returned"):
+        ctx.violation("read_data on a refinement level made of two separate boxes: "
+                      + notes["two_box_level_through_read_data"],
+                      {"kind": "input", "op": "twobox"}, {"kind": "classX_accepted_silently"})
+    # a restart that holds only checkpoint files shadows the 3D data of an earlier restart
+    notes["checkpoint_only_restart"] = checkpoint_only_restart(tmp)
+    if notes["checkpoint_only_restart"].startswith("raised"):
+        ctx.violation("read_data(it=[2, 6]) with a restart 1 that contains only checkpoint files (its 4, 8): "
+                      + notes["checkpoint_only_restart"] + " although restart 0 stores both iterations",
+                      {"kind": "input", "op": "chkonly"}, {"kind": "checkpoint_only_restart_shadows_3d"})
+    # a variable requested twice through the checkpoint path (Props/C11c checkpoint_duplicate_names_read_once)
     dup = {"op": "ckpt", "m0": True, "rl": 0, "its": [0, 8], "vars": ["alpha", "alp"], "files": [
         {"it": it, "file": None, "dsets": [["ADMBASE", "alp", it, tl, 0, None, 1, 1, 1, 0, 0, 0, 500 + it, 3, 3, 3,
                                              1000 * it + 100 * tl] for tl in (0, 1)]} for it in (8, 0)]}
     with quiet():
         out, order, data = ckpt_real(dup, tmp)
-    ok = out != "err" and len(data.get("alpha", [])) == 4 and len(data["t"]) == 2
-    ctx.obligation("witness checkpoint_table_exact_needs_nodup replays on the real read_ET_checkpoints "
-                   "(a variable requested twice: 4 entries for 2 iterations)", ok, out[:200], kind="correspondence")
+    stated = "ok it=0,8|t=500/508|alpha=1x1x1:13/1x1x1:8013"
+    ctx.obligation("witness checkpoint_duplicate_names_read_once replays on the real read_ET_checkpoints "
+                   "(a variable requested twice: one entry per iteration, the right one)", out == stated,
+                   "real %s | expected %s" % (out[:200], stated), kind="correspondence")
     cases.append((ckpt_line(dup, order), out, "witness"))
-    # a variable missing in a middle restart (Props/C11b rows_misaligned_when_columns_differ)
-    line, real = differing_columns(tmp)
-    ctx.obligation("witness rows_misaligned_when_columns_differ replays on the real read_data "
-                   "(shorter, shifted column)", real == "ok it=0,6,10|alpha=0,6,10|rho0=0,10", real,
-                   kind="correspondence")
-    cases.append((line, real, "witness"))
+    # a variable missing in a middle / in the first restart (Props/C11b rows_aligned_when_columns_differ)
+    for missing, stated in ((1, "ok it=0,6,10|alpha=0,6,10|rho0=0,None,10"),
+                            (0, "ok it=0,6,10|alpha=0,6,10|rho0=None,6,10")):
+        line, real = differing_columns(tmp, missing)
+        ctx.obligation("witness rows_aligned_when_columns_differ replays on the real read_data (rho missing in "
+                       "restart %d: None next to its iteration)" % missing, real == stated,
+                       "real %s | expected %s" % (real, stated), kind="correspondence")
+        cases.append((line, real, "witness"))
+    # the checkpoint path does not meet a missing column: a variable that is not in a checkpoint raises
+    notes["variable_missing_in_a_checkpoint"] = checkpoint_without_variable(tmp)
     ctx.cov["witness_replays"] = notes
     return cases
 
@@ -807,25 +907,68 @@ def two_box_level(tmp):
         sim.remove()
 
 
-def differing_columns(tmp):
+def differing_columns(tmp, missing):
+    """restarts 0/1/2, restart `missing` did not output rho; returns (flat line, real result)"""
+    rs = [{"number": 0, "its": [0, 2, 4]}, {"number": 1, "its": [4, 6, 8]}, {"number": 2, "its": [8, 10, 12]}]
+    rs[missing]["skip_vars"] = ["rho0"]
     desc = {"name": "diffcols", "per_proc": False, "grouped": False, "m0": True, "vars": ["alpha", "rho0"],
             "levels": [{"shape": [4, 2, 2], "ghost": [1, 1, 1], "base": [0, 0, 0], "decomp": [[2, [[2, [4]]]]],
                         "order": [0]}],
-            "restarts": [{"number": 0, "its": [0, 2, 4]}, {"number": 1, "its": [4, 6, 8]},
-                         {"number": 2, "its": [8, 10, 12]}], "par_in": 0, "requests": ["alpha", "rho0"]}
+            "restarts": rs, "par_in": 0, "requests": ["alpha", "rho0"]}
     sim = etgen.Sim(tmp + "/", desc).write()
     try:
-        os.remove(os.path.join(sim.outdir(1), "rho.h5"))        # restart 1 did not output rho
-        line = "flat 0,6,10 0:0:alpha=0;rho0=0 1:6:alpha=6 2:10:alpha=10;rho0=10"
+        line = "flat 0,6,10 " + " ".join("%d:%d:alpha=%d%s" % (r, it, it, "" if r == missing else ";rho0=%d" % it)
+                                         for r, it in ((0, 0), (1, 6), (2, 10)))
         try:
             data = do_read(sim.param(), {"it": [0, 6, 10], "vars": ["alpha", "rho0"], "rl": 0, "restart": -1,
                                          "skip_last": False})
             real = "ok it=" + ",".join(str(int(i)) for i in data["it"]) + "".join(
-                "|%s=%s" % (k, ",".join(str(etgen.decode(np.asarray(a).flat[0])["it"]) for a in data[k]))
+                "|%s=%s" % (k, ",".join("None" if a is None else str(etgen.decode(np.asarray(a).flat[0])["it"])
+                                        for a in data[k]))
                 for k in ("alpha", "rho0") if k in data)
         except Exception as ex:  # noqa
             real = "err %s" % type(ex).__name__
         return line, real
+    finally:
+        sim.remove()
+
+
+def checkpoint_only_restart(tmp):
+    desc = {"name": "onlychk", "per_proc": False, "grouped": False, "m0": True, "vars": ["alpha"],
+            "levels": [{"shape": [4, 2, 2], "ghost": [1, 1, 1], "base": [0, 0, 0], "decomp": [[2, [[2, [4]]]]],
+                        "order": [0]}],
+            "restarts": [{"number": 0, "its": [0, 2, 4, 6]},
+                         {"number": 1, "its": [4, 6, 8], "checkpoints": {"its": [4, 8], "ntl": 1}}],
+            "par_in": 0, "requests": ["alpha"]}
+    sim = etgen.Sim(tmp + "/", desc).write()
+    try:
+        for fn in glob.glob(sim.outdir(1) + "/alp*.h5"):
+            os.remove(fn)                                   # restart 1 wrote checkpoints only
+        try:
+            data = do_read(sim.param(), {"it": [2, 6], "vars": ["alpha"], "rl": 0, "restart": -1,
+                                         "skip_last": False})
+            return "returned iterations %s" % [int(i) for i in data.get("it", [])]
+        except Exception as ex:  # noqa
+            return "raised %s" % type(ex).__name__
+    finally:
+        sim.remove()
+
+
+def checkpoint_without_variable(tmp):
+    desc = {"name": "chkmiss", "per_proc": False, "grouped": False, "m0": True, "vars": ["alpha", "rho0"],
+            "levels": [{"shape": [4, 2, 2], "ghost": [1, 1, 1], "base": [0, 0, 0], "decomp": [[2, [[2, [4]]]]],
+                        "order": [0]}],
+            "restarts": [{"number": 0, "its": [0, 2, 4], "checkpoints": {"its": [0, 4]}},
+                         {"number": 1, "its": [4, 6, 8], "skip_vars": ["rho0"], "checkpoints": {"its": [8]}}],
+            "par_in": 0, "requests": ["alpha", "rho0"]}
+    sim = etgen.Sim(tmp + "/", desc).write()
+    try:
+        try:
+            data = do_read(sim.param(), {"it": [0, 8], "vars": ["alpha", "rho0"], "rl": 0, "restart": -1,
+                                         "skip_last": False, "usecheckpoints": True})
+            return "returned %s" % {k: len(v) for k, v in data.items()}
+        except Exception as ex:  # noqa
+            return "raised %s" % type(ex).__name__
     finally:
         sim.remove()
 
@@ -847,11 +990,10 @@ def run(ctx):
                         "one chunk per process and level; every level has the same number of chunks in the "
                         "file-per-process layout (what Carpet writes)",
                         "checkpoint path: a variable name that exists in two thorns of one file is not modelled; "
-                        "all checkpoints of one restart are written by the same number of processes; the names "
-                        "requested through the checkpoint path are distinct after translation (a name requested "
-                        "twice is a reported defect candidate, see checkpoint_table_exact_needs_nodup)",
-                        "row alignment is claimed when every restart delivers the same columns (a variable missing "
-                        "in a middle restart is a reported defect candidate, see rows_misaligned_when_columns_differ)",
+                        "all checkpoints of one restart are written by the same number of processes",
+                        "row alignment (None where a restart lacks a column) is proven around per-restart readers "
+                        "that deliver one entry per iteration in every column they have; a restart that is read "
+                        "but wrote NONE of the requested variables collects no time and the call raises",
                         "requested iterations exist in the restart whose [first,last] range contains them "
                         "(otherwise the code raises ValueError, which the property allows)"]
     try:
@@ -884,6 +1026,9 @@ def run(ctx):
         except Exception as ex:  # noqa
             ctx.obligation("correspondence: read_ET_checkpoints cases", False, repr(ex), kind="correspondence")
         f, sel2 = checkpoint_pipeline(ctx, tmp + "/", ctx.budget(12, 80) + (8 if ctx.broken() else 0))
+        found += f
+        cases += sel2
+        f, sel2 = missing_variable_pipeline(ctx, tmp + "/", ctx.budget(8, 60) + (8 if ctx.broken() else 0))
         found += f
         cases += sel2
         try:
@@ -931,6 +1076,18 @@ def replay(ctx, obj):
             bad = out != show(A)
             print("replay join: %s" % ("still differs from the array that was cut" if bad else "now correct"))
             return 1 if bad else 0
+        if obj.get("op") == "classx":
+            real = raw_real(obj["case"])
+            print("replay class X: join_chunks gives %s" % real)
+            return 1 if real == obj.get("stated") else 0
+        if obj.get("op") == "twobox":
+            res = two_box_level(tmp)
+            print("replay two-box level: %s" % res)
+            return 1 if res.startswith("returned") else 0
+        if obj.get("op") == "chkonly":
+            res = checkpoint_only_restart(tmp)
+            print("replay checkpoint-only restart: %s" % res)
+            return 1 if res.startswith("raised") else 0
         if obj.get("op") == "ckpt":
             out, order, _ = ckpt_real(obj["case"], tmp)
             print("replay ckpt: real read_ET_checkpoints gives %s" % out[:300])
@@ -966,28 +1123,31 @@ MANIFEST = {
             "=> hierarchical chunks under their true origins (exact read-back) OR class X (origins with gaps, overlaps, "
             "shifted strips/slabs: blocks packed side by side, silently); concrete class-X witnesses, replayed on the "
             "real code; 'every unsupported layout raises' is proven FALSE of the code. "
-            "RESTARTS (Props/C11b, Model/Restarts.lean): for any number of restarts, any overlap, with and without "
-            "usecheckpoints, any request (duplicates, unsorted, absent iterations) and for an explicit restart: the "
-            "iteration is taken from the last catalogue entry holding it (= largest restart number for a sorted "
-            "catalogue); rows come back increasing, once each; the t column and every variable column have exactly one "
-            "entry per row, from the chosen restart - provided every restart delivers the same columns (otherwise a "
-            "concrete misaligned witness, replayed). "
+            "RESTARTS (Props/C11b, Model/Restarts.lean, code as of e8cb585): for any number of restarts, any overlap, "
+            "with and without usecheckpoints, any request (duplicates, unsorted, absent iterations) and for an explicit "
+            "restart: the iteration is taken from the last catalogue entry holding it (= largest restart number for a "
+            "sorted catalogue); rows come back increasing, once each; the columns are the union of the columns of the "
+            "restarts read; the t column and every variable column have exactly one entry per row: the chosen restart's "
+            "value or None when that restart lacks the column - no hypothesis on the columns the restarts deliver. "
             "CHECKPOINTS (Props/C11c, Model/Checkpoint.lean written after read_ET_checkpoints): a well-formed checkpoint "
             "(one file / one file with n components / one file per process; any file order, component numbering, "
             "hierarchical decomposition, ghost content; other iterations, levels, past time levels, other variables in "
             "the file) is read back exactly per iteration, as a table over all requested iterations, and through the "
-            "restart selection of read_ET_data(usecheckpoints=True); the hypothesis 'names distinct after translation' "
-            "is shown necessary by a witness replayed on the real code. "
+            "restart selection of read_ET_data(usecheckpoints=True), for ANY request list: a name requested twice (same "
+            "name, component next to its tensor, ET name next to the aurel name) is read once (a25772a) and every column "
+            "has exactly one entry per returned iteration. "
             "All models are tied to the code by exact integer correspondence (join_chunks, fixij, "
             "read_ET_group_or_var and read_ET_checkpoints through real HDF5 files, restart choice of read_data); the "
-            "whole read_data pipeline, with and without usecheckpoints, is compared with the ground truth of generated "
-            "Carpet-style directories in all four layouts.",
+            "whole read_data pipeline, with and without usecheckpoints, with duplicate names and with restarts that "
+            "lack a requested variable (None expected), is compared with the ground truth of generated Carpet-style "
+            "directories in all four layouts.",
     "note": "Trusted: Lean kernel + propext/Classical.choice/Quot.sound; the hand-written models and specs (validated on "
             "1500 quick / 8000 thorough random decompositions of 1-60 chunks, malformed boxes, ghost widths 0-4 through "
             "real HDF5 files; 160 / 1500 random checkpoint file sets incl. malformed ones); the generator lib/etgen.py; "
-            "h5py/numpy. NOT claimed: that an unsupported layout raises (false: class X, e.g. a refinement level made "
-            "of two separate boxes is glued together - reported as defect candidate); alignment of a variable column "
-            "when the variable is missing in a middle restart (false - reported); the checkpoint path for a name "
-            "requested twice, e.g. gxx next to gammadown3 (false - reported), for the same variable name in two thorns "
-            "of one file (not modelled) and for restarts whose checkpoints were written with different process counts.",
+            "h5py/numpy. KNOWN FINDINGS reported on every run (not repaired): class X - 'an unsupported layout raises' is "
+            "false, e.g. a refinement level made of two separate boxes is glued together; a restart holding only "
+            "checkpoint files shadows the 3D data of earlier restarts (IndexError). NOT claimed: the checkpoint path "
+            "for the same variable name in two thorns of one file (not modelled), for restarts whose checkpoints were "
+            "written with different process counts, and for a variable absent from a checkpoint (raises ValueError, no "
+            "None); a restart that is read but wrote none of the requested variables (raises IndexError).",
 }
